@@ -1,0 +1,63 @@
+//go:build verif
+
+// Verification hook (build tag "verif" only): read-only snapshot of a
+// BalanceRR's backend list, taken under the balancer's own mutex, so that an
+// external monitor can evaluate eligibility / least-connection oracles against
+// the state the algorithm saw.
+
+package bal_slb
+
+import (
+	"github.com/bfenetworks/bfe/bfe_balance/backend"
+)
+
+// VerifBackend is the view of one BackendRR.
+type VerifBackend struct {
+	Backend     *backend.BfeBackend
+	Weight      int // effective weight (configured*100 unless in slow start)
+	Current     int
+	InSlowStart bool
+	Avail       bool
+	ConnNum     int
+}
+
+// VerifRR is the view of one BalanceRR.
+type VerifRR struct {
+	Backends      []VerifBackend
+	Next          int
+	Sorted        bool
+	SlowStartTime int
+}
+
+func (brr *BalanceRR) verifSnapshotLocked() VerifRR {
+	s := VerifRR{Next: brr.next, Sorted: brr.sorted, SlowStartTime: brr.slowStartTime}
+	s.Backends = make([]VerifBackend, 0, len(brr.backends))
+	for _, b := range brr.backends {
+		s.Backends = append(s.Backends, VerifBackend{
+			Backend:     b.backend,
+			Weight:      b.weight,
+			Current:     b.current,
+			InSlowStart: b.inSlowStart,
+			Avail:       b.backend.Avail(),
+			ConnNum:     b.backend.ConnNum(),
+		})
+	}
+	return s
+}
+
+// VerifSnapshot returns the list in list order, under brr's mutex.
+func (brr *BalanceRR) VerifSnapshot() VerifRR {
+	brr.Lock()
+	defer brr.Unlock()
+	return brr.verifSnapshotLocked()
+}
+
+// VerifTrySnapshot is VerifSnapshot that gives up (ok=false) when the mutex is
+// held, so that a monitor can look at a balancer whose mutex is never released.
+func (brr *BalanceRR) VerifTrySnapshot() (VerifRR, bool) {
+	if !brr.TryLock() {
+		return VerifRR{}, false
+	}
+	defer brr.Unlock()
+	return brr.verifSnapshotLocked(), true
+}
